@@ -14,7 +14,9 @@ EXPLANATION = (
     "the grid Jacobian agree on index logic and derivative slot; (R07.4) the NURBS quotient rule siblings are equal as rational "
     "expressions and all slicing sites treat the last component as weight; (R07.5) boundary-name table and axis insertion "
     "conventions agree; (R07.6) the circular-arc family is consistent (points, weight angle, spans, dispatch covers (0,2pi]); "
-    "(R07.7) arrays of variable rank are indexed rank-generically.")
+    "(R07.7) arrays of variable rank are indexed rank-generically.  R07.4 also compares the order of the linearised symmetric "
+    "Hessian components between the B-spline loop nest and the index-pair generator of the NURBS correction (finite model for "
+    "sdim = 1, 2, 3).")
 DOES_NOT_DECIDE = "any value, Jacobian or Hessian; exactness of circles to rounding"
 TECHNIQUE = "custom AST rules: affine index evaluation over dimension instances, alias/effect analysis, rational normal-form sibling comparison, table agreement"
 
